@@ -644,3 +644,16 @@ def served_under(root, extra, filename):
 
 def served_from(static_files, key, extra, filename):
     return key in static_files and served_under(static_files[key], extra, filename)
+
+
+def lifespan_answers(log, n0):
+    """C20: what ASGIApp.lifespan sends after position n0: 'complete' for every startup, then at
+    most one final message - startup failed, shutdown complete or shutdown failed."""
+    n = len(log)
+    if n < n0:
+        return False
+    if n == n0:
+        return True
+    return forall(lambda k: log[k] == 'lifespan.startup.complete', n0, n - 1) and \
+        (log[n - 1] == 'lifespan.startup.complete' or log[n - 1] == 'lifespan.startup.failed' or
+         log[n - 1] == 'lifespan.shutdown.complete' or log[n - 1] == 'lifespan.shutdown.failed')
